@@ -19,6 +19,7 @@ IsPt(p) == Eq(Slice(Req, 5, 6), B(<<p>>))
 InSess == Eq(Slice(Req, 5, 6), B(<<192>>))
 Rule(name, when, dgs) == [rule |-> name, when |-> when, datagrams |-> dgs]
 Now(t) == << Dg(t, [kind |-> "reply"]) >>
+NowValid(t, cc) == << Dg(t, [kind |-> "reply", valid |-> TRUE, code |-> cc]) >>
 Late(t) == << [t |-> t, when |-> "late", attrs |-> [kind |-> "late"]] >>
 \* honest handshake legs as rules (with their captures)
 OsrRule == Rule("osr", <<IsPt(16)>>, HonestOsr(S).datagrams) @@ [captures |-> HonestOsr(S).captures]
@@ -29,7 +30,7 @@ InSessReply(netfnRsp, cmd, cc, data) == SessPacket(S, <<1, 0, 0, 0>>, B(MsgRspBy
 NullReply(netfnRsp, cmd, cc, data) == NullWrapper(0, B(MsgRspBytes(129, netfnRsp, 0, 1, 0, cmd, cc, data)))
 
 \* fault -> the datagrams the BMC answers the faulty step with
-Faulty(f, goodT, busyT) == CASE f = "blackhole" -> <<>> [] f = "late" -> Late(goodT) [] f = "garbage" -> Now(Garbage) [] f = "temp" -> Now(busyT)
+Faulty(f, goodT, busyT) == CASE f = "blackhole" -> <<>> [] f = "late" -> Late(goodT) [] f = "garbage" -> Now(Garbage) [] f = "temp" -> NowValid(busyT, 192)
                              [] f = "trunc" -> Now(Trunc(goodT, 21))
 TimedCall(call, d, mustErr) == call @@ [ctx |-> [ms |-> d], exp |-> [prop |-> "C13", outcome |-> "timed", deadlineMs |-> d, allowMs |-> Allow(d), mustErr |-> mustErr]]
 Expired(call) == call @@ [ctx |-> [ms |-> 5000, expired |-> TRUE], exp |-> [prop |-> "C13", outcome |-> "timed", deadlineMs |-> 0, allowMs |-> 150, mustErr |-> TRUE]]
@@ -76,8 +77,11 @@ SdrShort == { Script("sdr-permanent-50", "sdr", "permanent", <<50, 300>>, Handsh
                      << Quiet(OpenCall), TimedCall(SdrCall, 50, TRUE) >>),
               Script("sdr-permanent-120", "sdr", "permanent", <<120, 40>>, Handshake \o << Rule("cmd", <<InSess>>, Now(InSessReply(11, 32, 193, <<>>))) >>,
                      << Quiet(OpenCall), TimedCall(SdrCall, 120, TRUE) >>) }
+\* C18 over real time: a call that keeps being retried until its deadline, which falls inside a back-off sleep
+MetricScripts == { Sessionless(f, r) : f \in {"temp", "garbage", "blackhole"}, r \in {<<900, 300>>, <<700, 200>>, <<1300, 150>>} }
+                 \cup { InSession("temp", r) : r \in {<<900, 300>>, <<1300, 150>>} }
 AllFaults == {"blackhole", "late", "garbage", "temp"}
-Scripts ==
+Scripts == IF Family = "metrics" THEN MetricScripts ELSE
   LET rs == IF Full \/ Family = "all" THEN Ratios ELSE {r \in Ratios : TRUE} IN
   UNION { { Sessionless(f, r), InSession(f, r), Close(f, r) } : f \in AllFaults, r \in rs }
   \cup { HandshakeLeg(f, leg, r) : f \in AllFaults \cup {"trunc"}, leg \in 1..3, r \in (IF Full THEN rs ELSE {<<250, 1000>>, <<900, 300>>}) }
